@@ -376,9 +376,9 @@ func run(sc scenario, seed uint64, rep *hx.Report) (lines, expect []string, skip
 	stable()
 	// one live endpoint per name: whoever was replaced in the registry has been told to go and has gone
 	// (a peer that does not answer the shutdown request is cut off when the request times out, 3 s)
-	patience := 2 * time.Second
+	patience := 8 * time.Second // generous: only a violation ever waits this long
 	if len(hungs) > 0 {
-		patience = 7 * time.Second
+		patience = 15 * time.Second
 	}
 	liveOf := func() map[string][]int {
 		rec.mu.Lock()
